@@ -557,3 +557,5 @@ func pktsOf(a any) []Pkt {
 	}
 	return out
 }
+
+func uintptrOf(p *Pipe) uintptr { return uintptr(unsafe.Pointer(p)) }
